@@ -48,6 +48,12 @@ enum Op {
 	StartProc,
 	Process(usize),
 	Obs(usize),
+	/// pause (zero-length fade) the `i`-th thing that waits (a kind-0 sound); never given to the model
+	SndPause(usize),
+	/// resume (zero-length fade) the `i`-th thing that waits; never given to the model
+	SndResume(usize),
+	/// record the playback state and position of the `i`-th thing that waits; never given to the model
+	SndObs(usize),
 	/// the next `n` (user-side) ops are not executed now but by the user's thread WHILE the audio thread is inside
 	/// the next `StartProc` (= `Renderer::on_start_processing`), at this point of it: 0 = the `on_start_processing`
 	/// of an effect on a live sub-track, 1 = of an effect on a live send track, 2 = of a sound on a live sub-track
@@ -127,6 +133,9 @@ fn op_term(o: &Op, dy: bool) -> String {
 		Op::StartProc => "RStartProc".into(),
 		Op::Process(n) => format!("RProcess {}", n),
 		Op::Obs(c) => format!("RObs {}", c),
+		Op::SndPause(i) => format!("<waiter {}: handle.pause(zero-length fade)>", i),
+		Op::SndResume(i) => format!("<waiter {}: handle.resume(zero-length fade)>", i),
+		Op::SndObs(i) => format!("<waiter {}: read state() and position()>", i),
 		Op::Mid { .. } => unreachable!("linearise removes Mid"),
 	}
 }
@@ -241,6 +250,8 @@ struct Trace {
 	waits: Vec<WaitObs>,
 	/// start frame of every processed chunk
 	chunk_starts: Vec<usize>,
+	/// (op index, waiter, state, position)
+	snd_views: Vec<(usize, usize, PlaybackState, f64)>,
 	obs64: Vec<i128>,
 	obsq: Vec<i128>,
 	complete: bool,
@@ -346,6 +357,13 @@ impl Game {
 						t.obsq.push(-8);
 					}
 				}
+			}
+			Op::SndPause(i) => self.sounds[*i].handle.pause(ZERO_TWEEN),
+			Op::SndResume(i) => self.sounds[*i].handle.resume(ZERO_TWEEN),
+			Op::SndObs(i) => {
+				let h = &self.sounds[*i].handle;
+				let v = (oi, *i, h.state(), h.position());
+				shared.lock().unwrap().snd_views.push(v);
 			}
 			Op::StartProc | Op::Process(_) | Op::Mid { .. } => unreachable!("audio-side op given to the user's side"),
 		}
@@ -798,6 +816,7 @@ fn monitor_history(s: &mut Session, r: &mut Rng) {
 	let nchunks = r.range(6, 40) as usize;
 	// per chunk: what the user did before it
 	let mut marks: Vec<(usize, &'static str)> = vec![];
+	let mut chunk_frames: Vec<usize> = vec![];
 	let mut dropped = false;
 	for k in 0..nchunks {
 		if !dropped {
@@ -810,12 +829,20 @@ fn monitor_history(s: &mut Session, r: &mut Rng) {
 					ops.push(Op::Start(0));
 					marks.push((k, "start"));
 				}
-				3 => {
+				3 | 5 => {
 					ops.push(Op::Stop(0));
 					marks.push((k, "stop"));
-					if r.chance(1, 2) {
-						ops.push(Op::Start(0));
-						marks.push((k, "start"));
+					// stop() immediately followed by start() / pause(): both land between the same two callbacks
+					match r.below(4) {
+						0 | 1 => {
+							ops.push(Op::Start(0));
+							marks.push((k, "start"));
+						}
+						2 => {
+							ops.push(Op::Pause(0));
+							marks.push((k, "pause"));
+						}
+						_ => {}
 					}
 				}
 				4 if k > 2 && r.chance(1, 3) => {
@@ -827,7 +854,9 @@ fn monitor_history(s: &mut Session, r: &mut Rng) {
 			}
 		}
 		ops.push(Op::StartProc);
-		ops.push(Op::Process(if r.chance(1, 6) { 1 + r.below(buf as u64) as usize } else { buf }));
+		let nf = if r.chance(1, 6) { 1 + r.below(buf as u64) as usize } else { buf };
+		chunk_frames.push(nf);
+		ops.push(Op::Process(nf));
 		ops.push(Op::StartProc);
 		if !dropped {
 			ops.push(Op::Obs(0));
@@ -865,6 +894,22 @@ fn monitor_history(s: &mut Session, r: &mut Rng) {
 		}
 		if stopped && !started_after_stop && (v.ticking || v.ticks != 0 || v.fr != 0.0) {
 			s.fail(desc.clone(), format!("chunk {k}: after stop() the clock shows {:?}, not (0, 0.0) / not ticking", v), None);
+		}
+		if stopped && started_after_stop {
+			// stopping resets the clock to zero: restarted in the same gap between two callbacks, it has run for
+			// exactly this one buffer (constant dyadic speed: exact)
+			s.count("restart_between_two_callbacks");
+			let want = sp.x * chunk_frames[k] as f64 / sr as f64;
+			if !(v.ticking && v.ticks as f64 == want.floor() && v.fr == want - want.floor()) {
+				s.fail(
+					desc.clone(),
+					format!(
+						"chunk {k}: stop() immediately followed by start() before this buffer ({} frames): stopping resets the clock to zero, so after the buffer it must be ticking at speed x {} frames = {:?} ticks, but it shows {:?} (before the stop it showed {:?})",
+						chunk_frames[k], chunk_frames[k], want, v, prev
+					),
+					None,
+				);
+			}
 		}
 	}
 	check_events(s, &desc, &t, &views, 0, 0, drop_chunk, nchunks);
@@ -1185,6 +1230,258 @@ fn monitor_mid_callback(s: &mut Session, r: &mut Rng, to_model: bool) {
 	// what was given to the main track after it had picked up its new sounds is picked up by the next callback
 	let pick = if point == 3 { 1 } else { 0 };
 	check_events(s, &desc, &t, &views, idle, pick, drop_at, nchunks);
+}
+
+
+/// Directed, independent of the seed, run first: the "restart the metronome" idiom.  A clock that has run for a
+/// while gets stop() immediately followed by start() (or pause()) with no callback in between; a sound is then
+/// scheduled on the restarted clock.  Stopping resets the clock to zero: after the next buffer it shows exactly one
+/// buffer's worth of time (stop; start) or (0, 0.0) and not ticking (stop; pause), and the sound begins in the buffer
+/// during which the RESTARTED clock reaches its time.  Every quantity is a power of two; the histories also go to
+/// the model.
+fn directed_restart(s: &mut Session) {
+	for (sr, buf, tps, ran, then_start) in [(1024u32, 128usize, 8.0f64, 6usize, true), (1024, 128, 8.0, 6, false), (512, 64, 20.0, 9, true), (512, 16, 3.0, 23, false), (1024, 128, 8.0, 1, true)] {
+		let sp = Spd { kind: 1, x: tps };
+		let per_buffer = tps * buf as f64 / sr as f64;
+		let mut ops = vec![Op::AddClock(sp), Op::Start(0)];
+		for _ in 0..ran {
+			ops.extend([Op::StartProc, Op::Process(buf), Op::StartProc, Op::Obs(0)]);
+		}
+		ops.push(Op::Stop(0));
+		ops.push(if then_start { Op::Start(0) } else { Op::Pause(0) });
+		ops.push(Op::Wait(0, St::Clk { clock: 0, ticks: 3, fr: 0.0 }));
+		let after = (3.0 / per_buffer).ceil() as usize + 3;
+		for _ in 0..after {
+			ops.extend([Op::StartProc, Op::Process(buf), Op::StartProc, Op::Obs(0)]);
+		}
+		let sc = Scenario { sr, buf, ops, dyadic: true };
+		let t = run_scenario(&sc, 20000);
+		let desc = scenario_term(&sc, false);
+		s.case("history_directed_restart_f64", desc.clone(), &t.obs64, Some(key_of(&desc)));
+		s.case("history_directed_restart_Q", scenario_term(&sc, true), &t.obsq, None);
+		if !t.complete || t.views.len() != ran + after {
+			s.fail(desc, "history did not complete".into(), None);
+			continue;
+		}
+		let views: Vec<View> = t.views.iter().map(|x| x.2).collect();
+		let before = views[ran - 1];
+		for j in 0..after {
+			let v = views[ran + j];
+			let want = if then_start { per_buffer * (j + 1) as f64 } else { 0.0 };
+			if !(v.ticking == then_start && v.ticks as f64 == want.floor() && v.fr == want - want.floor()) {
+				s.fail(
+					desc.clone(),
+					format!(
+						"the clock had run for {ran} buffers and showed {:?}; then stop() immediately followed by {} between two callbacks: stopping resets the clock to zero, so {} buffer(s) later it must show {:?} ticks and ticking = {}, but it shows {:?}",
+						before,
+						if then_start { "start()" } else { "pause()" },
+						j + 1,
+						want,
+						then_start,
+						v
+					),
+					None,
+				);
+				break;
+			}
+		}
+		// the sound scheduled for tick 3 of the restarted clock: the event clause on the clock's published words
+		check_events(s, &desc, &t, &views[ran..], ran, 0, None, ran + after);
+	}
+}
+
+/// what happens around a sound that waits for a clock time and is paused while it waits
+#[derive(Clone, Copy, Debug)]
+struct PausedWaiter {
+	sr: u32,
+	buf: usize,
+	/// ticks per buffer (a small dyadic number)
+	per_buffer: f64,
+	tau: (u64, f64),
+	/// buffers before sound.pause()
+	n0: usize,
+	/// buffers between sound.pause() and the clock event
+	n1: usize,
+	/// the clock event: 0 nothing, 1 clock.pause(), 2 clock.stop(), 3 the clock's handle is dropped
+	ev: u8,
+	/// buffers between the clock event and sound.resume()
+	n2: usize,
+	resume: bool,
+	/// buffers after that
+	n3: usize,
+}
+
+/// The event clause for a waiter whose own playback is paused while it waits (`StartTime::update` is where a
+/// missing clock is noticed and where a reached time is latched; both must go on while the sound is paused):
+/// * the clock disappears while the sound is paused and the time was never reached -> the sound becomes Stopped;
+/// * the running clock reaches the time while the sound is paused -> the event is due from then on: whatever happens
+///   to the clock afterwards (paused, stopped, removed), the sound plays as soon as it is resumed - never late, not
+///   cancelled;
+/// * reached before the pause / after the resume: the ordinary rule (begins in the buffer in which the clock
+///   reaches the time).
+/// One internal buffer per callback; an extra on_start_processing publishes the clock's time after each buffer.
+fn paused_waiter_case(s: &mut Session, c: &PausedWaiter) {
+	let sp = Spd { kind: 1, x: c.per_buffer * c.sr as f64 / c.buf as f64 };
+	let mut ops = vec![Op::AddClock(sp), Op::Start(0), Op::Wait(0, St::Clk { clock: 0, ticks: c.tau.0, fr: c.tau.1 })];
+	let mut alive = true;
+	let chunks = |ops: &mut Vec<Op>, n: usize, alive: bool| {
+		for _ in 0..n {
+			ops.extend([Op::StartProc, Op::Process(c.buf), Op::StartProc]);
+			if alive {
+				ops.push(Op::Obs(0));
+			}
+			ops.push(Op::SndObs(0));
+		}
+	};
+	chunks(&mut ops, c.n0, alive);
+	ops.push(Op::SndPause(0));
+	chunks(&mut ops, c.n1, alive);
+	match c.ev {
+		1 => ops.push(Op::Pause(0)),
+		2 => ops.push(Op::Stop(0)),
+		3 => {
+			ops.push(Op::Drop(0));
+			alive = false;
+		}
+		_ => {}
+	}
+	chunks(&mut ops, c.n2, alive);
+	if c.resume {
+		ops.push(Op::SndResume(0));
+	}
+	chunks(&mut ops, c.n3, alive);
+	let (p, e, q) = (c.n0, c.n0 + c.n1, c.n0 + c.n1 + c.n2);
+	let total = q + c.n3;
+	let sc = Scenario { sr: c.sr, buf: c.buf, ops, dyadic: true };
+	let t = run_scenario(&sc, 20000);
+	s.eval_only("monitor_paused_waiter");
+	let desc = scenario_text(&sc);
+	if !t.complete || t.waits.len() != 1 || t.chunk_starts.len() != total {
+		s.fail(desc, "history did not complete".into(), None);
+		return;
+	}
+	let views: Vec<View> = t.views.iter().map(|x| x.2).collect();
+	let horizon = if c.ev == 3 { e } else { total }.min(views.len());
+	let (tau_t, tau_f) = c.tau;
+	let reached = |v: &View| v.ticking && (v.ticks > tau_t || (v.ticks == tau_t && v.fr >= tau_f));
+	let kstar = (0..horizon).find(|&k| reached(&views[k]));
+	let w = &t.waits[0];
+	let starts = &t.chunk_starts;
+	let story = format!(
+		"sound scheduled for ({tau_t}, {tau_f:?}); sound.pause() before buffer {p}; {} before buffer {e}; {}",
+		["no clock event", "clock.pause()", "clock.stop()", "clock handle dropped"][c.ev as usize],
+		if c.resume { format!("sound.resume() before buffer {q}") } else { "never resumed".to_string() }
+	);
+	let states: Vec<String> = t.snd_views.iter().map(|x| format!("{:?}@{:?}", x.2, x.3)).collect();
+	let seen = format!("state()@position() after each buffer: [{}]", states.join(", "));
+	match kstar {
+		None => {
+			s.count("paused_waiter_never_due");
+			if w.state == 1 {
+				s.fail(desc.clone(), format!("{story}: the sound began at frame {} although the running clock never reached that time; {seen}", w.frame), None);
+			}
+			if c.ev == 3 && total - e >= 2 && w.final_state != PlaybackState::Stopped {
+				s.fail(
+					desc.clone(),
+					format!("{story}: the sound waits for a clock that no longer exists (removed {} buffers ago, never having reached that time) but the sound is {:?}, not Stopped; {seen}", total - e, w.final_state),
+					None,
+				);
+			}
+			if c.ev != 3 && w.final_state == PlaybackState::Stopped {
+				s.fail(desc.clone(), format!("{story}: the sound was cancelled (Stopped) although its clock exists; {seen}"), None);
+			}
+		}
+		Some(k) => {
+			let shown = format!("the ticking clock showed ({}, {:?}) after buffer {k}", views[k].ticks, views[k].fr);
+			// the device frames at which the sound may first be heard: [lo, hi)
+			let at = |k: usize| (starts[k], starts[k] + 1);
+			let allowed: Vec<(usize, usize)> = if k < p {
+				vec![at(k)]
+			} else if !c.resume {
+				// due while paused and never resumed: silent is right (heard in the buffer of the pause itself if due there)
+				if k == p { vec![(starts[p], starts[p] + c.buf)] } else { vec![] }
+			} else if k > q {
+				vec![at(k)]
+			} else {
+				// due while the sound was paused (or in the buffer of the resume): it plays as soon as it is resumed, i.e.
+				// it is heard within the buffer of the resume or at the start of the next (the zero-length fade-in ramps
+				// over the buffer in which the resume is picked up: see the notes)
+				let mut a = vec![(starts[q], starts[q] + c.buf + 1)];
+				if k == p {
+					a.push((starts[p], starts[p] + c.buf));
+				}
+				a
+			};
+			s.count(if k >= p && c.resume && k < q { "paused_waiter_due_while_paused_then_resumed" } else { "paused_waiter_due_other" });
+			if w.final_state == PlaybackState::Stopped || w.state == 2 {
+				s.fail(desc.clone(), format!("{story}: {shown}, so the start is due; yet the sound was cancelled (Stopped); {seen}"), None);
+			} else if w.state == 1 {
+				if !allowed.iter().any(|(lo, hi)| (*lo as i64) <= w.frame && w.frame < *hi as i64) {
+					s.fail(
+						desc.clone(),
+						format!("{story}: {shown}; the sound is first heard at device frame {} (buffer {}) but must first be heard at a frame in {:?} (buffers are {} frames); {seen}", w.frame, w.frame / c.buf as i64, allowed, c.buf),
+						None,
+					);
+				}
+			} else if c.resume && k <= q && total >= q + 3 {
+				s.fail(
+					desc.clone(),
+					format!("{story}: {shown}, so the start has been due since then; {} buffers after the resume the sound is still silent (state {:?}): late; {seen}", total - q, w.final_state),
+					None,
+				);
+			} else if c.resume && k > q && total >= k + 2 {
+				s.fail(desc.clone(), format!("{story}: {shown}; the sound never began (state {:?}): late; {seen}", w.final_state), None);
+			}
+		}
+	}
+}
+
+/// Directed, independent of the seed, run first: the two situations of `paused_waiter_case` on power-of-two numbers
+/// (1024 Hz, 128-frame buffers, 8 ticks per second: one buffer = one tick).
+fn directed_paused_waiter(s: &mut Session) {
+	let base = PausedWaiter { sr: 1024, buf: 128, per_buffer: 1.0, tau: (100, 0.0), n0: 2, n1: 2, ev: 3, n2: 4, resume: false, n3: 0 };
+	// paused while waiting for tick 100; the clock is removed -> Stopped (with and without a later resume)
+	paused_waiter_case(s, &base);
+	paused_waiter_case(s, &PausedWaiter { n2: 3, resume: true, n3: 3, ..base });
+	paused_waiter_case(s, &PausedWaiter { n0: 0, n1: 1, ..base });
+	// paused while waiting for tick 4; the clock passes tick 4, is then stopped / paused / removed; the sound is resumed -> plays
+	for ev in [2u8, 1, 3, 0] {
+		paused_waiter_case(s, &PausedWaiter { tau: (4, 0.0), n0: 1, n1: 8, ev, n2: 1, resume: true, n3: 4, ..base });
+		paused_waiter_case(s, &PausedWaiter { tau: (2, 0.5), n0: 1, n1: 3, ev, n2: 0, resume: true, n3: 3, per_buffer: 0.5, sr: 512, buf: 16 });
+	}
+	// controls: never paused long enough to matter
+	paused_waiter_case(s, &PausedWaiter { tau: (1, 0.0), n0: 3, n1: 2, ev: 1, n2: 1, resume: true, n3: 3, ..base });
+	paused_waiter_case(s, &PausedWaiter { tau: (9, 0.0), n0: 1, n1: 2, ev: 0, n2: 1, resume: true, n3: 8, ..base });
+}
+
+/// seeded: the region around `directed_paused_waiter`
+fn monitor_paused_waiter(s: &mut Session, r: &mut Rng) {
+	let sr = *r.pick(&[512u32, 1024]);
+	let buf = *r.pick(&[16usize, 64, 128]);
+	let per_buffer = *r.pick(&[0.25, 0.5, 1.0, 2.0, 0.375, 1.25]);
+	let n0 = r.below(4) as usize;
+	let mut n1 = r.below(9) as usize;
+	let ev = r.below(4) as u8;
+	if ev == 3 && n0 + n1 == 0 {
+		// a clock whose handle is dropped before the audio thread has picked the clock up lives (unobserved) through
+		// the first buffer: keep the removal observable
+		n1 = 1;
+	}
+	let n2 = r.below(4) as usize;
+	let resume = r.chance(3, 4);
+	let n3 = r.range(2, 6) as usize;
+	let tau = match r.below(5) {
+		// reached by the clock while the sound is paused, exactly at the end of a buffer
+		0 | 1 if n1 >= 2 => {
+			let k = n0 + 1 + r.below(n1 as u64 - 1) as usize;
+			let x = per_buffer * (k + 1) as f64;
+			(x.floor() as u64, x - x.floor())
+		}
+		// never reached
+		2 => (100 + r.below(3), 0.0),
+		_ => (r.below(10), *r.pick(&[0.0, 0.0, 0.5, 0.25, 0.875])),
+	};
+	paused_waiter_case(s, &PausedWaiter { sr, buf, per_buffer, tau, n0, n1, ev, n2, resume, n3 });
 }
 
 /// F17: a speed tween scheduled on the clock's own time never starts; the same tween scheduled on
@@ -1564,6 +1861,10 @@ pub fn run(args: &Args) {
 		return;
 	}
 
+	// ---- directed scenarios, the same on every run (independent of the seed), first
+	directed_restart(&mut s);
+	directed_paused_waiter(&mut s);
+
 	// ---- model correspondence: dyadic regime (binary64 and exact rationals), arbitrary regime (binary64)
 	for i in 0..n {
 		let dyadic = i % 2 == 0;
@@ -1627,6 +1928,7 @@ pub fn run(args: &Args) {
 		}
 	}
 	s.notes.push("resume_at(ClockTime): the playback state becomes Resuming (and the position advances) in the buffer k* predicted by the model, but the fade-in parameter is set after its own update in that buffer, so the first audible frame is the first frame of buffer k*+1; the harness maps the audible onset back by one buffer".into());
+	s.notes.push("monitor-only (no model twin): a sound waiting for a clock time whose own playback is paused while it waits (monitor_paused_waiter / directed_paused_waiter): cancelled when the clock disappears, due from the buffer in which the running clock reaches the time whatever happens to the clock afterwards, heard within one buffer of the resume; the C05 model's waiters have no pause of their own. stop() immediately followed by start()/pause() between two callbacks (directed_restart, monitor_history) is both monitored and sent to the model".into());
 	s.notes.push("hooks used (cfg(kira_verif), add-only): yield points in ClockShared::fractional_position (= between the two loads of ClockHandle::time), Clock::update_shared (between its two stores), ClockHandle::stop (between its two stores)".into());
 	s.notes.push("not driven: clock speeds linked to modulators (Value::FromModulator), streaming sounds as waiters (the tick count saturates at u64::MAX in every build profile since the F7 repair: boundary stream and f7_regression cases)".into());
 
@@ -1646,6 +1948,9 @@ pub fn run(args: &Args) {
 	}
 	for i in 0..(n / 3).max(60) {
 		monitor_mid_callback(&mut s, &mut rng, i % 4 == 0);
+	}
+	for _ in 0..(n / 2).max(100) {
+		monitor_paused_waiter(&mut s, &mut rng);
 	}
 	schedule_cases(&mut s, &mut rng, args.thorough);
 	// last: if F7 is back each of these leaves a spinning thread behind
